@@ -106,9 +106,47 @@ func (p *Prog) RunUnit(key string) *UnitResult {
 	if fn == nil {
 		return &UnitResult{Key: key, Missing: true}
 	}
+	// Property views: loop invariants labelled for a property P are only needed
+	// for the obligations labelled P. The unit is executed once without them
+	// (structural obligations, unlabelled invariants only) and once per such
+	// property with the unlabelled invariants plus P's, emitting only P's
+	// obligations. Every invariant assumed in a run is proved in that run or in
+	// the base run; the queries stay small.
+	views := map[string]bool{}
+	if c != nil {
+		for _, invs := range c.Invs {
+			for _, inv := range invs {
+				for _, l := range inv.Labels {
+					views[labelProp(l)] = true
+				}
+			}
+		}
+	}
 	e := NewExec(p, fn, c)
+	e.viewProps = views
 	e.Run()
-	return &UnitResult{Key: key, Exec: e, Obls: e.obls, Unsup: e.unsup, CErrs: e.contractErrs}
+	res := &UnitResult{Key: key, Exec: e, Obls: e.obls, Unsup: e.unsup, CErrs: e.contractErrs}
+	var vs []string
+	for v := range views {
+		vs = append(vs, v)
+	}
+	sort.Strings(vs)
+	for _, v := range vs {
+		ev := NewExec(p, fn, c)
+		ev.viewProps = views
+		ev.view = v
+		ev.Run()
+		res.Obls = append(res.Obls, ev.obls...)
+		res.Unsup = append(res.Unsup, ev.unsup...)
+		res.CErrs = append(res.CErrs, ev.contractErrs...)
+		for k := range ev.stale {
+			e.stale[k] = true
+		}
+		for k := range ev.byContr {
+			e.byContr[k] = true
+		}
+	}
+	return res
 }
 
 func main() {
